@@ -22,7 +22,12 @@ func instrument(dir string, files []string) (string, error) {
 	replace := map[string]string{}
 	for i, rel := range files {
 		// "<file>+sync": also swap package sync for verif/vsync (lock acquisitions become yield points)
-		withSync := strings.HasSuffix(rel, "+sync")
+		// "<file>+lockonly": swap package sync only (the file's own atomics stay invisible to the monitor's trace)
+		lockOnly := strings.HasSuffix(rel, "+lockonly")
+		rel = strings.TrimSuffix(rel, "+lockonly")
+		// package sync is swapped in every listed file that imports it ("+sync" is the historical way to say so): a
+		// refactor that trades atomics for a mutex must not leave a worker blocked on a lock whose holder is parked
+		withSync := true
 		rel = strings.TrimSuffix(rel, "+sync")
 		src := filepath.Join(repoDir, rel)
 		if _, err := os.Stat(src); os.IsNotExist(err) {
@@ -47,7 +52,7 @@ func instrument(dir string, files []string) (string, error) {
 		var edits []edit
 		for _, imp := range f.Imports {
 			p, _ := strconv.Unquote(imp.Path.Value)
-			if p == "sync/atomic" {
+			if p == "sync/atomic" && !lockOnly {
 				name := "atomic"
 				from := fset.Position(imp.Path.Pos()).Offset
 				if imp.Name != nil {
